@@ -30,7 +30,7 @@ import (
 	"github.com/dolthub/dolt/go/zzverif/vt"
 )
 
-const c14Rule = "base (0..22000 entries; one in five cut right after a leaf boundary, with a hot window on its end), left and right by independent drawn edit scripts (single puts/deletes in 3 shared hot windows and one private window per side, contiguous runs of up to 500 deleted or inserted keys, edits at leaf boundaries of the base, plus 0-4 explicit both-sided edits of one hot key, and on cut bases an append past the end on one side against a delete of the last keys on the other) or by a drawn special shape (one side unchanged, one side emptied, both sides identical, a common script on both sides first); sides built through MutableMap from the base tree or in bulk; collision handler drawn from {always conflict, take left, take right, field-wise combine (delete wins), conflict on odd keys else take right}. A key-wise model gives the expected map and the expected set of divergent keys. Compared: prolly.MergeMaps result and handler invocations (key, both diffs' from/to/type); tree.PatchGeneratorFromRoots+SendPatches+ApplyPatches on the left root (same root as MergeMaps, same invocations); every tree.ThreeWayDiffer output (op, key, base/left/right/merged) and its resolve-callback invocations; root hash of the merged map vs a bulk build of the expected content. Non-trivial: at least one divergent key, at least one range patch (level>0) sent for the right side, and base height>=2; distinct by hash of (schema, size, shape, scripts, handler)."
+const c14Rule = "base (0..22000 entries; part `wide` is the wide-row flavour: 300-900 rows with values padded to a drawn band between 120 and 850 bytes (6-15 rows per leaf), runs of up to 6-120 keys, 10-40 edits per side, one side shifting chunk boundaries by deletes/inserts/size-changing updates at leaf ends and their neighbours, the other making point edits there; one in five cut right after a leaf boundary, with a hot window on its end), left and right by independent drawn edit scripts (single puts/deletes in 3 shared hot windows and one private window per side, contiguous runs of up to 500 deleted or inserted keys, edits at leaf boundaries of the base, plus 0-4 explicit both-sided edits of one hot key, and on cut bases an append past the end on one side against a delete of the last keys on the other) or by a drawn special shape (one side unchanged, one side emptied, both sides identical, a common script on both sides first); sides built through MutableMap from the base tree or in bulk; collision handler drawn from {always conflict, take left, take right, field-wise combine (delete wins), conflict on odd keys else take right}. A key-wise model gives the expected map and the expected set of divergent keys. Compared: prolly.MergeMaps result and handler invocations (key, both diffs' from/to/type); tree.PatchGeneratorFromRoots+SendPatches+ApplyPatches on the left root (same root as MergeMaps, same invocations); every tree.ThreeWayDiffer output (op, key, base/left/right/merged) and its resolve-callback invocations; root hash of the merged map vs a bulk build of the expected content. Non-trivial: at least one divergent key, at least one range patch (level>0) sent for the right side, and base height>=2; distinct by hash of (schema, size, shape, scripts, handler)."
 
 type c14Handler int
 
@@ -142,12 +142,17 @@ func (s *c14SlicePatches) NextPatch(context.Context) (tree.Patch, error) {
 }
 func (s *c14SlicePatches) Close() error { return nil }
 
-func c14Case(t *rapid.T, rec *vh.Recorder) {
+func c14Case(t *rapid.T, rec *vh.Recorder, wideOnly bool) {
 	var ks, vs vt.Schema
 	flavor := "rows"
-	if rapid.IntRange(0, 9).Draw(t, "flavor") < 8 {
+	fl := 19
+	if !wideOnly {
+		fl = rapid.IntRange(0, 15).Draw(t, "flavor")
+	}
+	switch {
+	case fl < 13:
 		ks, vs = vt.GenSchema(t, "key", 1, 2, false), vt.GenSchema(t, "val", 1, 3, true)
-	} else {
+	case fl < 16:
 		flavor = "index"
 		k := vt.GenSchema(t, "key", 2, 3, false)
 		nulls := make([]bool, len(k.Kinds))
@@ -155,18 +160,30 @@ func c14Case(t *rapid.T, rec *vh.Recorder) {
 			nulls[i] = rapid.Bool().Draw(t, fmt.Sprintf("key.null%d", i))
 		}
 		ks, vs = vt.NewSchema(k.Kinds, nulls), vt.NewSchema([]vt.Kind{}, []bool{})
+	default:
+		// wide rows: a leaf holds about 6-15 rows, so edits keep landing on chunk ends
+		flavor = "wide"
+		ks, vs = vt.GenSchema(t, "key", 1, 2, false), c12WideSchema()
 	}
 	w := c12NewWorld(ks, vs)
+	w.wide = flavor == "wide"
+	if w.wide {
+		w.padLo = rapid.SampledFrom([]int{120, 300, 450}).Draw(t, "padLo")
+		w.padSpan = rapid.SampledFrom([]int{1, 60, 401}).Draw(t, "padSpan")
+	}
 	ctx := w.ctx
-	sizeClass := rapid.IntRange(0, 9).Draw(t, "sizeClass")
 	var n int
-	switch {
-	case sizeClass == 0:
-		n = rapid.IntRange(0, 40).Draw(t, "n")
-	case sizeClass < 8:
-		n = rapid.IntRange(600, 6000).Draw(t, "n")
-	default:
-		n = rapid.IntRange(12000, 22000).Draw(t, "n")
+	if w.wide {
+		n = rapid.IntRange(300, 900).Draw(t, "n")
+	} else {
+		switch sizeClass := rapid.IntRange(0, 9).Draw(t, "sizeClass"); {
+		case sizeClass == 0:
+			n = rapid.IntRange(0, 40).Draw(t, "n")
+		case sizeClass < 8:
+			n = rapid.IntRange(600, 6000).Draw(t, "n")
+		default:
+			n = rapid.IntRange(12000, 22000).Draw(t, "n")
+		}
 	}
 	step := 3
 	if mx := vt.MaxAt(ks.Kinds[0])/step - 20; n > mx {
@@ -175,7 +192,11 @@ func c14Case(t *rapid.T, rec *vh.Recorder) {
 	B := w.seqDict(n, step)
 	fullHi := n*step + 30
 	shared := c12Hot(t, "hot", fullHi, 3)
-	gb := &c12EditGen{w: w, fullHi: fullHi, hot: shared, maxRun: 500}
+	maxRun := 500
+	if w.wide {
+		maxRun = rapid.SampledFrom([]int{6, 12, 40, 120}).Draw(t, "maxRun")
+	}
+	gb := &c12EditGen{w: w, fullHi: fullHi, hot: shared, maxRun: maxRun}
 	gb.script(t, "B", B, nil, rapid.IntRange(0, 3).Draw(t, "baseOps"), [8]int{2, 2, 1, 2, 0, 2, 2, 0})
 	baseM, err := w.bulk(B)
 	if err != nil {
@@ -211,13 +232,35 @@ func c14Case(t *rapid.T, rec *vh.Recorder) {
 		bounds = shB.leafEnd // the end of the map is a natural boundary too
 	}
 	L, R := B.Clone(), B.Clone()
-	gl := &c12EditGen{w: w, fullHi: fullHi, hot: append(append([][2]int{}, shared...), c12Hot(t, "hotL", fullHi, 1)...), maxRun: 500}
-	gr := &c12EditGen{w: w, fullHi: fullHi, hot: append(append([][2]int{}, shared...), c12Hot(t, "hotR", fullHi, 1)...), maxRun: 500}
+	gl := &c12EditGen{w: w, fullHi: fullHi, hot: append(append([][2]int{}, shared...), c12Hot(t, "hotL", fullHi, 1)...), maxRun: maxRun}
+	gr := &c12EditGen{w: w, fullHi: fullHi, hot: append(append([][2]int{}, shared...), c12Hot(t, "hotR", fullHi, 1)...), maxRun: maxRun}
 	weights := [8]int{5, 1, 3, 3, 2, 1, 1, 3}
+	wideStyle := 0
+	if w.wide {
+		// one side shifts chunk boundaries (deletes / inserts / size-changing updates at leaf
+		// ends and their neighbours), the other makes point edits there
+		// (style 0/1), or both sides edit uniformly spread keys (2), or both sides shift (3)
+		wideStyle = rapid.IntRange(0, 3).Draw(t, "wideStyle")
+		switch wideStyle {
+		case 0:
+			gl.pointOnly = true
+		case 1:
+			gr.pointOnly = true
+		}
+	}
 	shapeKind := rapid.IntRange(0, 11).Draw(t, "shape")
 	var ls, rs []c12Edit
 	var sname string
 	side := func(g *c12EditGen, label string, d *vt.Dict) []c12Edit {
+		if w.wide {
+			wt := [8]int{2, 1, 2, 3, 1, 1, 1, 9}
+			if g.pointOnly {
+				wt = [8]int{1, 0, 4, 0, 0, 0, 0, 6}
+			} else if wideStyle == 2 {
+				wt = [8]int{1, 6, 5, 5, 0, 1, 1, 2}
+			}
+			return g.script(t, label, d, bounds, rapid.IntRange(10, 40).Draw(t, label+".nops"), wt)
+		}
 		return g.script(t, label, d, bounds, rapid.IntRange(1, 14).Draw(t, label+".nops"), weights)
 	}
 	emptied := func(d *vt.Dict) []c12Edit {
@@ -251,7 +294,7 @@ func c14Case(t *rapid.T, rec *vh.Recorder) {
 		gr.ops = append([]string{}, gl.ops...)
 	case 5, 6:
 		sname = "common-then-independent"
-		gc := &c12EditGen{w: w, fullHi: fullHi, hot: shared, maxRun: 500}
+		gc := &c12EditGen{w: w, fullHi: fullHi, hot: shared, maxRun: maxRun}
 		common := side(gc, "c", L)
 		gl.ops = append(gl.ops, "common{"+c12Join(gc.ops, 8)+"}")
 		gr.ops = append(gr.ops, "common")
@@ -311,10 +354,10 @@ func c14Case(t *rapid.T, rec *vh.Recorder) {
 					*sd.es = append(*sd.es, c12Edit{K: k, Del: true})
 					sd.g.note("clash del %v", k)
 				} else {
-					v := vt.GenRow(t, fmt.Sprintf("%s.v%d", label, si), vs, 0, 5)
+					v := w.genVal(t, fmt.Sprintf("%s.v%d", label, si))
 					sd.d.Put(k, v)
 					*sd.es = append(*sd.es, c12Edit{K: k, V: v})
-					sd.g.note("clash put %v=%v", k, v)
+					sd.g.note("clash put %v=%v", k, w.vstr(v))
 				}
 			}
 		}
@@ -704,5 +747,9 @@ func TestVerif_C14(t *testing.T) {
 		"the collision handler returns its resolution as Diff{Key: left.Key, From: left.From, To: resolved value or nil for delete}, the way merge_prolly_rows.go does",
 		"handler invocations are compared as a set with exactly-once (their order is not part of the property)")
 	defer rec.Write(t)
-	vh.Check(t, "merge", 3000, 2500, func(rt *rapid.T) { c14Case(rt, rec) })
+	vh.Check(t, "merge", 2400, 2000, func(rt *rapid.T) { c14Case(rt, rec, false) })
+	recW := vh.NewRecorder("C14", "wide", "exploration", c14Rule,
+		"wide-row part: same oracle; rows padded so that a leaf holds 6-15 rows")
+	defer recW.Write(t)
+	vh.Check(t, "wide", 600, 800, func(rt *rapid.T) { c14Case(rt, recW, true) })
 }
